@@ -41,11 +41,11 @@ CLAIMS = {
         "(distinctness of draws is an assumption on thread_rng); RequestBuilder::build's use of the same Intermediate for wire body and metadata is claimed under C15 when that group is present.",
    technique="contract-based deductive verification (Verus) of mechanically extracted functions", design="4/C03"),
  "C20": dict(
-   text="Complete proofs by Kani/CBMC (loop-free harnesses over full-domain symbolic inputs, no bound): derived Ord/PartialOrd/Eq of Version equal numeric lexicographic comparison of the four components for all 2^256 pairs; "
-        "From<[u32; n]> (impl_from! macro output) zero-fills for n = 1..4.",
-   note="Trusted: Kani 0.68 / CBMC 6.11, the harness oracle (lex_cmp written without loops). FromStr, Display and serde (string form) are NOT covered: Kani cannot get through anyhow::Error construction and the Verus route needs an iterator stand-in for str::split that was not built; "
-        "those parts of the property are unclaimed.",
-   technique="Kani function-level harnesses, loop-free over full domain (complete)", design="4/C20", kani=True),
+   text="Proof (Verus) of the real Version::from_str: Ok iff the string split at '.' has at most four pieces each of which std's u32 parser accepts, components are those numbers in order and the missing trailing ones are zero; more than four pieces, an empty / non-numeric / overflowing piece are rejected; no panic (index and unwrap obligations). "
+        "Complete proofs by Kani/CBMC (loop-free harnesses over full-domain symbolic inputs, no bound): derived Ord/PartialOrd/Eq of Version equal numeric lexicographic comparison of the four components for all 2^256 pairs; From<[u32; n]> (impl_from! macro output) zero-fills for n = 1..4.",
+   note=TRUST + "`s.split('.').map(f)` is replaced by a stand-in that applies f to every piece of split_spec(s, '.') (eager instead of lazy; contract over f's own contract, so the closure `|s| s.parse::<u32>()` is verified, with parse::<u32> as std's uninterpreted dec_u32: optional '+', digits, <= u32::MAX); enumerate() is a stand-in on that type; anyhow error values are opaque. "
+        "Kani 0.68 / CBMC 6.11 and the harness oracle (lex_cmp written without loops) are trusted for the ordering half. Display (itertools format), parse(print(v)) = v and serde (string form) are NOT covered.",
+   technique="contract-based deductive verification (Verus) of the extracted function; Kani function-level harnesses, loop-free over full domain (complete)", design="4/C20", kani=True),
  "C02": dict(
    text="Proof (Verus) of the real do_omaha_request_and_update_context, ping_omaha, report_omaha_event_and_update_context and perform_update_check: "
         "with a CUP handler configured a response the handler rejects yields CupValidation iff rejected, and on that path context, event log and storage log are unchanged "
